@@ -400,6 +400,14 @@ func ruleTableGuard(r *Run) {
 				}
 				bd.hasLower = nonneg
 			}
+			// rotated loops (`for c := range 256`): the counter phi is bounded edge by edge - its initial constant,
+			// and counter+1 tested `< K` on the latch edge that re-enters the body
+			if phi, ok := p.stripConv(ia.Index).(*ssa.Phi); ok && !bd.hasUpper {
+				if up, ok := phiUpperBound(phi); ok {
+					bd.hasUpper, bd.upper = true, up
+					used = append(used, fmt.Sprintf("loop counter < %d on every edge into the loop body", up))
+				}
+			}
 			switch {
 			case !bd.hasUpper:
 				r.bad(key, ia.Pos(), "index into %s (len %d) is not dominated by any upper-bound guard on the index", g.Name(), L)
@@ -414,6 +422,45 @@ func ruleTableGuard(r *Run) {
 		})
 	}
 	_ = n
+}
+
+// phiUpperBound: an exclusive upper bound of a loop-counter phi established on each of its incoming edges
+// (a constant, or a value tested `< K` / `<= K` by the branch that takes this edge).
+func phiUpperBound(phi *ssa.Phi) (int64, bool) {
+	var up int64
+	for i, e := range phi.Edges {
+		if k, ok := constInt(e); ok {
+			if k+1 > up {
+				up = k + 1
+			}
+			continue
+		}
+		pred := phi.Block().Preds[i]
+		ifi := blockIf(pred)
+		if ifi == nil || pred.Succs[0] == pred.Succs[1] {
+			return 0, false
+		}
+		g := guardFact{Cond: ifi.Cond, True: pred.Succs[0] == phi.Block(), If: ifi}
+		x, y, op, ok := g.cmp()
+		if !ok || x != e {
+			return 0, false
+		}
+		k, isC := constInt(y)
+		if !isC {
+			return 0, false
+		}
+		switch op {
+		case token.LSS:
+		case token.LEQ:
+			k++
+		default:
+			return 0, false
+		}
+		if k > up {
+			up = k
+		}
+	}
+	return up, len(phi.Edges) > 0
 }
 
 // ---------------------------------------------------------------------------
